@@ -654,10 +654,12 @@ static size_t copy_chars (UCHAR* from, UCHAR* to, size_t count, interactive_t* i
         case TS_SB_IAC:
           if (from[i] == IAC)
             {
-              if (ip->sb_pos >= SB_SIZE - 1)
-                break;
-              /* IAC IAC is a quoted IAC char */
-              ip->sb_buf[ip->sb_pos++] = INT_CHAR(IAC);
+              /* IAC IAC is a quoted IAC char: data, stored while there is room.  Either way
+               * the decoder is back in the data of the sub-negotiation (it stayed in this
+               * state when the buffer was full, and a plain SE byte behind the pair then
+               * ended the sub-negotiation early: what followed became command text). */
+              if (ip->sb_pos < SB_SIZE - 1)
+                ip->sb_buf[ip->sb_pos++] = INT_CHAR(IAC);
               ip->state = TS_SB;
               break;
             }
